@@ -461,13 +461,8 @@ fn run_huge(delta: i64, log2: u32, spec: &RngSpec, obs: &mut Obs) -> Vec<Violati
         b.select(&pop, &mut rng).map(|_| ()).map_err(|e| format!("{e:?}"))
     });
     report("Box<dyn DynSelector>(Random)", r);
-    for k in [1usize, 2, 3] {
-        let r = catch(|| {
-            let t = Tournament::new(NonZeroUsize::new(k).unwrap_or(NonZeroUsize::MIN));
-            t.select(&pop, &mut rng).map(|_| ()).map_err(|e| format!("{e:?}"))
-        });
-        report(&format!("Tournament({k})"), r);
-    }
+    // (tournaments are NOT run on such populations: an implementation that keeps one index per member is as lawful
+    // as the present one and legitimately runs out of memory here — `benign/c07b3/OUT/patch3.diff` does; DESIGN §17.17)
     obs.count("draws", rng.draws());
     obs.nontrivial(mix(mix(0x4a6e, delta as u64), u64::from(log2)));
     v
